@@ -20,6 +20,16 @@ fn check(kind: &str, arg: &str) -> Option<Cex> {
             let mut want: Vec<u16> = (0..=u16::MAX).filter(|y| if kind == "sub16" { y & x == *y } else { y & x == x }).collect();
             if kind == "sub16" { want.reverse(); }
             if got != Ok(want.clone()) { return mk(format!("{}({}) differs (len {:?})", kind, x, got.map(|v| v.len())), format!("{} masks in order", want.len())); } }
+        "fast16" => {
+            // all 16-bit masks, unsigned and signed: strictly monotone in the unsigned order of the bit patterns, only sub- (super-) masks,
+            // exactly 2^popcount of them, ending in 0 (all-ones): together that is "every one exactly once, in order"
+            let x: u16 = arg.parse().unwrap_or(0);
+            let got = guarded(|| (iter_submasks(x).collect::<Vec<u16>>(), iter_supermasks(x).collect::<Vec<u16>>(), iter_submasks(x as i16).collect::<Vec<i16>>(), iter_supermasks(x as i16).collect::<Vec<i16>>()));
+            match got { Err(e) => return mk(format!("16-bit mask {:#x}: {}", x, e), "no panic".into()), Ok((a, b, c, d)) => {
+                let ok_a = a.windows(2).all(|w| w[0] > w[1]) && a.iter().all(|y| y & x == *y) && a.len() == 1usize << x.count_ones() && a.last() == Some(&0);
+                let ok_b = b.windows(2).all(|w| w[0] < w[1]) && b.iter().all(|y| y & x == x) && b.len() == 1usize << x.count_zeros() && b.last() == Some(&u16::MAX);
+                let ok_c = c.iter().map(|v| *v as u16).collect::<Vec<_>>() == a && d.iter().map(|v| *v as u16).collect::<Vec<_>>() == b;
+                if !(ok_a && ok_b && ok_c) { return mk(format!("masks of {:#06x} (u16 / i16): submasks ok = {}, supermasks ok = {}, signed agree = {}", x, ok_a, ok_b, ok_c), "every sub- / supermask once, in unsigned order".into()); } } } }
         "wide" => { let x: u64 = arg.parse().unwrap_or(0);
             let got = guarded(|| (iter_submasks(x).collect::<Vec<u64>>(), iter_supermasks(!x).collect::<Vec<u64>>(), iter_submasks(x as i64).collect::<Vec<i64>>(), iter_submasks((x as u128) << 64).collect::<Vec<u128>>()));
             match got { Err(e) => return mk(e, "no panic".into()), Ok((a, b, c, d)) => {
@@ -77,10 +87,13 @@ pub fn run(_seed: u64, replay: Option<String>) -> Outcome {
     for x in 0..=255u32 { for k in ["sub8", "sup8"] { cases += 1; if let Some(c) = check(k, &x.to_string()) { return Outcome { cex: Some(c), cases }; } } }
     for x in -128..=127i32 { for k in ["subi8", "supi8"] { cases += 1; if let Some(c) = check(k, &x.to_string()) { return Outcome { cex: Some(c), cases }; } } }
     for x in [0u32, 1, 0x8000, 0xffff, 0x00ff, 0xa5a5, 0x8001] { for k in ["sub16", "sup16"] { cases += 1; if let Some(c) = check(k, &x.to_string()) { return Outcome { cex: Some(c), cases }; } } }
+    let thorough = std::env::var("VERIF_TIER").map(|t| t == "thorough").unwrap_or(false);
+    // all 16-bit masks, unsigned and signed (3^16 masks in total)
+    for x in 0..=u16::MAX as u32 { { cases += 1; if let Some(c) = check("fast16", &x.to_string()) { return Outcome { cex: Some(c), cases }; } } }
     for x in [0u64, 1, 1 << 63, 0x8000_0000_0000_0001, 0xf0f0, 0x8000_0001_0001_0003, u64::MAX >> 52 << 52] { cases += 1; if let Some(c) = check("wide", &x.to_string()) { return Outcome { cex: Some(c), cases }; } }
-    for len in 0..=5usize { let tot = 3usize.pow(len as u32); for code in 0..tot { let mut c = code; let mut s = String::new(); for _ in 0..len { s.push((b'0' + (c % 3) as u8) as char); c /= 3; }
+    for len in 0..=(if thorough { 7usize } else { 6 }) { let tot = 3usize.pow(len as u32); for code in 0..tot { let mut c = code; let mut s = String::new(); for _ in 0..len { s.push((b'0' + (c % 3) as u8) as char); c /= 3; }
         cases += 1; if let Some(x) = check("perm", &s) { return Outcome { cex: Some(x), cases }; } } }
-    for s in ["0123", "3210", "01234", "43210", "012345"] { cases += 1; if let Some(x) = check("perm", s) { return Outcome { cex: Some(x), cases }; } }
+    for s in ["0123", "3210", "01234", "43210", "012345", "0123456", "01234567", "76543210", "0011223", "3322110"] { cases += 1; if let Some(x) = check("perm", s) { return Outcome { cex: Some(x), cases }; } }
     for n in 1..=6usize { for m in 1..=6usize { for i in 0..n { for j in 0..m { cases += 1; if let Some(x) = check("nb", &format!("{},{},{},{}", n, m, i, j)) { return Outcome { cex: Some(x), cases }; } } } } }
     Outcome { cex: None, cases }
 }
